@@ -2,10 +2,11 @@ import PrefVerif.Model.SingleCrossing
 /-!
 Model of `is_one_euclidean` (`preflibtools/properties/subdomains/ordinal/euclidean.py`) up to and
 including the linear programme handed to the solver: the single-crossing pre-check, the colouring of
-the alternatives from the first and last stored voters, the split into coloured and "grey"
+the alternatives from the two ends of the single-crossing arrangement returned by the pre-check (after
+the repair `fix: is_one_euclidean takes the extreme voters from the single-crossing order`), the split into coloured and "grey"
 alternatives, the axis built from the colours (`axis_dict` counting + stable descending sort),
 `_restrict_preferences`, the constraint generation of `_one_euclidean_solve_lp` and the set
-bookkeeping of `_one_euclidean_gen_sets`.  The code is modelled AS IT IS (defect D17 is not
+bookkeeping of `_one_euclidean_gen_sets`.  The code is modelled AS IT IS (defect D17b is not
 repaired): grey alternatives never enter the LP.  The LP solver and the float arithmetic of the grey
 placement are not modelled.
 
@@ -56,12 +57,17 @@ structure Stage where
   grey : List Nat                -- alternatives left grey (C_set_minus)
   deriving Repr
 
-/-- everything up to the LP call -/
+/-- `sc_orders` of `is_SC, sc_orders = is_single_crossing(instance)`: the single-crossing arrangement found by
+the pre-check (meaningful when the pre-check passed) -/
+def scOrders (alts : List Nat) (orders : List (List Nat)) : List (List Nat) := (isSC orders alts.length).2
+
+/-- everything up to the LP call; `v_1 = sc_orders[0]`, `v_n = sc_orders[-1]`: the two ends of the
+single-crossing arrangement (NOT the first and last stored order) -/
 def stage (alts : List Nat) (orders : List (List Nat)) : Stage :=
   let (isSc, _) := isSC orders alts.length
   if !isSc then { sc := false, coloured := none, grey := [] }
   else
-    match orders.head?, orders.getLast? with
+    match (scOrders alts orders).head?, (scOrders alts orders).getLast? with
     | some v1, some vn =>
       let cMinus := v1.headD 0
       let cPlus := vn.headD 0
@@ -242,7 +248,7 @@ structure LP where
 /-- the linear programme `is_one_euclidean` hands to the solver; `none` when the function returns
 `(False, None)` before reaching it (pre-check or colouring failed).  `alts` sorted increasingly. -/
 def lp (alts : List Nat) (orders : List (List Nat)) : Option LP :=
-  match (stage alts orders).coloured, orders.head?, orders.getLast? with
+  match (stage alts orders).coloured, (scOrders alts orders).head?, (scOrders alts orders).getLast? with
   | some g, some v1, some vn =>
     let cplus := colouredAlts alts g
     let axis := axisOf g v1 vn cplus
